@@ -5,6 +5,7 @@ import (
 	"fmt"
 	"math"
 	"math/big"
+	"strings"
 
 	spg "go.1password.io/spg"
 
@@ -36,6 +37,8 @@ var wlTreePanel = []WLCase{
 	{Words: []string{"solo"}, Length: 33, Scheme: "random", SepKind: "char", SepChar: ""},
 	{Words: []string{"solo"}, Length: 40, Scheme: "one", SepKind: "char", SepChar: ""},
 	{Words: []string{"ab", "cd"}, Length: 9, Scheme: "random", SepKind: "char", SepChar: ""},
+	{Words: []string{"uno", "dos", strings.Repeat("tres", 75)}, Length: 2, Scheme: "none", SepKind: "char", SepChar: "-"},
+	{Words: []string{"uno", strings.Repeat("é", 256), "caf\xe9"}, Length: 2, Scheme: "first", SepKind: "char", SepChar: ""},
 }
 
 func init() {
